@@ -223,11 +223,13 @@ prop("C11", lambda tier: [
         binc("c11", ASAN_BUILD % ("c11", "harness/c10_tls.c"), "env ASAN_OPTIONS=detect_leaks=0 build/c11/c11 --part c11 --stats {stats} --tier quick",
              "env ASAN_OPTIONS=detect_leaks=0 build/c11/c11 --part c11 --stats {stats} --tier thorough", "E3 seqmc (bounded exhaustive key subsets x destructor masks vs expected call list; ASan+UBSan; forked child per case)"),
         binc("c11e2", "E2_EXCLUDE=none engine/build_e2.sh c11e2 harness/c10_keyalloc_e2.c", "build/c11e2/c11e2 --prop C11 --comp c11e2 --stats {stats} --tier quick --jobs {jobs}",
-             "build/c11e2/c11e2 --prop C11 --comp c11e2 --stats {stats} --tier thorough --jobs {jobs}", "E2 unitmc (explicit-state, access granularity, SC and x86-TSO)")],
-     "E2: every interleaving of myth_key_create / myth_key_delete programs of 2-3 participants on the real key table: a live key keeps the destructor its creator registered; "
+             "build/c11e2/c11e2 --prop C11 --comp c11e2 --stats {stats} --tier thorough --jobs {jobs}", "E2 unitmc (explicit-state, access granularity, SC and x86-TSO)"),
+        e1("c11x", "harness/c11_exit.c")],
+     "E1: 1-2 threads holding values under keys whose destructors yield / block on a mutex / are plain / absent, ending by return, myth_exit or cancellation, on 1-2 workers under all schedules with <= K deviations "
+     "(the dying thread may change workers inside its destructors); E2: every interleaving of myth_key_create / myth_key_delete programs of 2-3 participants on the real key table: a live key keeps the destructor its creator registered; "
      "every single key 0..1023 with destructor and value; every subset of size <=2/3 of 13 representative keys x destructor mask x NULL/non-NULL mask, on a private tree and key table; "
      "whole library on one worker: 4 key sets x {return, myth_exit, cancel+testcancel}",
-     assumptions=["the unit harness #includes src/myth_tls_func.h and calls myth_tls_tree_set / myth_tls_tree_fini exactly as thread creation and exit do", "AddressSanitizer turns any read outside the 1024-entry key table into a verdict"])
+     assumptions=["the unit harness #includes src/myth_tls_func.h and calls myth_tls_tree_set / myth_tls_tree_fini exactly as thread creation and exit do", "AddressSanitizer turns any read outside the 1024-entry key table into a verdict"] + E1_ASSUME)
 
 prop("C15", lambda tier: [
         binc("c15", "UNIT_EXCLUDE=myth_bind_worker engine/build_unit.sh c15 harness/c15_config.c", "build/c15/c15 --stats {stats} --tier quick", "build/c15/c15 --stats {stats} --tier thorough",
@@ -322,6 +324,7 @@ with_fine("C03", "c03f", "harness/c03_context.c")
 with_fine("C10", "c10mf", "harness/c10_migrate.c")
 with_fine("C15", "c15ff", "harness/c15_fini.c")
 with_fine("C17", "c17f", "harness/c17_bulk.c")
+with_fine("C11", "c11xf", "harness/c11_exit.c")
 with_fine("C20", "c20f", "harness/c20_timed.c")
 
 
